@@ -23,6 +23,8 @@ void run1 (string e, string a, string b) {
     case "write_buffer": write_buffer (a, 0, "x"); break;
     case "stat": stat (a); break;
     case "get_dir": get_dir (a); break;
+    case "get_dir1": get_dir (a, -1); break;
+    case "stat1": stat (a, -1); break;
     case "rename": rename (a, b); break;
     case "link": link (a, b); break;
     case "cp": cp (a, b); break;
